@@ -17,4 +17,16 @@ CHECKS = {
                 "parametricity); closures as logged functions.",
         "technique": "Coq proof (case analysis) + exhaustive model/implementation correspondence",
     },
+    "C02": {
+        "text": "Coq theorems (Props/C02.v): an invariant proved for every state reachable by any operation history from any source "
+                "schedule (induction over history and over the refill loop, no bound on sizes), giving window = delivered-minus-consumed, "
+                "position, mark across realignment, completeness flags, parked-error life cycle, termination of the refill loops, and "
+                "conservation of the source stream for honest sources (BufReader leftovers included). The hand-written Gallina model of "
+                "deferred_reader.rs is tied to the code by running the extracted model and the real crate on the same random histories "
+                "(debug and release), plus an implementation-only Vec+cursor oracle used to turn a disagreement into a replay.",
+        "design_ref": "DESIGN.md 2/C02",
+        "note": "Trusted: Coq kernel; extraction; the hand model of deferred_reader.rs and of std Read/Chain/Cursor/Vec (validated "
+                "differentially each run); sizes < 2^62. Defect D1 (mark not rebased on realign) was found by this check and fixed in /repo.",
+        "technique": "Coq proof (invariant by induction over histories) + model/implementation correspondence",
+    },
 }
